@@ -48,6 +48,8 @@ enum Ty {
     Idx,             // usize used as an index (loop variables, usize parameters)
     Tuple(Vec<Ity>), // result of a function returning a tuple of scalars
     Unit,
+    Bool,
+    OptSlice,        // Option<&[u8]>
 }
 
 #[derive(Clone)]
@@ -72,6 +74,12 @@ fn ty_of(t: &syn::Type, key_is_arr: bool) -> Option<Ty> {
             }
             if name == "Key" && key_is_arr {
                 return Some(Ty::Arr(Ity::U64));
+            }
+            if name == "bool" {
+                return Some(Ty::Bool);
+            }
+            if name == "Option" && toks(t).replace("'a ", "") == "Option < & [u8] >" {
+                return Some(Ty::OptSlice);
             }
             None
         }
@@ -118,15 +126,74 @@ fn arr_len(t: &syn::Type) -> Option<usize> {
     }
 }
 
+/// a field of the hasher that is itself a struct with translated methods (self.buffer : HashPacket)
+pub struct SubObj {
+    pub field: String,
+    sigs: HashMap<String, Sig>,
+    fields: Vec<String>,
+}
+
+impl SubObj {
+    pub fn new(field: &str, file: &syn::File, ty: &str) -> SubObj {
+        let mut sigs = HashMap::new();
+        let mut fields = Vec::new();
+        for it in &file.items {
+            match it {
+                syn::Item::Struct(st) if st.ident == ty => {
+                    for f in &st.fields {
+                        if let Some(id) = &f.ident {
+                            fields.push(id.to_string());
+                        }
+                    }
+                }
+                syn::Item::Impl(im) if im.trait_.is_none() && toks(&im.self_ty) == ty => {
+                    for ii in &im.items {
+                        if let syn::ImplItem::Fn(f) = ii {
+                            let mut params = Vec::new();
+                            let mut ok = true;
+                            for a in &f.sig.inputs {
+                                if let syn::FnArg::Typed(t) = a {
+                                    match (&*t.pat, ty_of(&t.ty, false)) {
+                                        (syn::Pat::Ident(i), Some(ty)) => params.push((i.ident.to_string(), ty)),
+                                        _ => ok = false,
+                                    }
+                                }
+                            }
+                            let ret = match &f.sig.output {
+                                syn::ReturnType::Default => Some(Ty::Unit),
+                                syn::ReturnType::Type(_, t) => ty_of(t, false),
+                            };
+                            if let (true, Some(ret)) = (ok, ret) {
+                                sigs.insert(f.sig.ident.to_string(), Sig { params, ret });
+                            }
+                        }
+                    }
+                }
+                _ => {}
+            }
+        }
+        SubObj { field: field.to_string(), sigs, fields }
+    }
+}
+
 struct Cx<'a> {
     self_ty: &'a str,
     sigs: &'a HashMap<String, Sig>,
     fields: &'a HashMap<String, (Ity, usize)>,
+    sfields: &'a HashMap<String, Ity>,
+    consts: &'a HashMap<String, u128>,
+    ret_opt: bool,
+    valias: HashMap<String, (String, String)>, // for &x in arr: x stands for arr[index variable]
+    arr_alias: HashMap<String, String>,         // for a in [&x, &y]: a stands for the array x, then y
+    self_alias: Option<String>,                 // let mut h = <Self> { .. }: h is self
+    sub: &'a Option<SubObj>,
+    chunks: HashMap<String, (String, u128)>, // let mut chunks = X.chunks_exact(n)
     vars: HashMap<String, Ty>,
     lens: HashMap<String, usize>,
     alias: HashMap<String, (String, String)>, // deref alias: name -> (array, index variable)
     tmp: usize,
     pre: Vec<String>, // statements hoisted out of the expression being translated
+    views: std::collections::HashSet<String>,
     zips: HashMap<String, (String, String, String, String)>, // let z = dst[dlo..].iter_mut().zip(&src[slo..])
     ret_arr: bool,    // the function returns an array: `return e;` and the tail assign the variable %ret
 }
@@ -152,6 +219,10 @@ impl<'a> Cx<'a> {
         match e {
             syn::Expr::Path(p) if p.path.segments.len() == 1 => {
                 let n = p.path.segments[0].ident.to_string();
+                if let Some(target) = self.arr_alias.get(&n) {
+                    let t = self.elem_ty(target)?;
+                    return Some((target.clone(), t));
+                }
                 match self.vars.get(&n) {
                     Some(Ty::Arr(i)) => Some((n, *i)),
                     _ => None,
@@ -213,12 +284,28 @@ impl<'a> Cx<'a> {
                 Some((v, t)) => (format!("(ELit {})", v), t.or(expect)),
                 None => Self::unsupported(e),
             },
+            syn::Expr::Path(p) if p.path.segments.len() == 1 && self.valias.contains_key(&p.path.segments[0].ident.to_string()) => {
+                let (a, i) = self.valias.get(&p.path.segments[0].ident.to_string()).cloned().unwrap();
+                let t = self.elem_ty(&a);
+                (format!("(EIdx {} (IVar {}))", q(&a), q(&i)), t)
+            }
             syn::Expr::Path(p) if p.path.segments.len() == 1 => {
                 let n = p.path.segments[0].ident.to_string();
                 match self.vars.get(&n) {
                     Some(Ty::Int(i)) => (format!("(EVar {})", q(&n)), Some(*i)),
-                    _ => Self::unsupported(e),
+                    _ => match self.consts.get(&n) {
+                        Some(v) => (format!("(ELit {})", v), Some(Ity::Usz)),
+                        None => Self::unsupported(e),
+                    },
                 }
+            }
+            syn::Expr::Field(f) if toks(&f.base) == "self" => {
+                if let syn::Member::Named(m) = &f.member {
+                    if let Some(t) = self.sfields.get(&m.to_string()) {
+                        return (format!("(EVar {})", q(&format!("self.{}", m))), Some(*t));
+                    }
+                }
+                Self::unsupported(e)
             }
             syn::Expr::Unary(u) if matches!(u.op, syn::UnOp::Not(_)) => {
                 let (x, t) = self.expr(&u.expr, expect);
@@ -318,16 +405,35 @@ impl<'a> Cx<'a> {
                             _ => Self::unsupported(e),
                         }
                     }
+                    "min" if m.args.len() == 1 => {
+                        let (a, ta) = self.expr(&m.receiver, expect);
+                        let (b, tb) = self.expr(&m.args[0], ta.or(expect));
+                        match ta.or(tb) {
+                            Some(t) => (format!("(EMin {} {})", a, b), Some(t)),
+                            None => Self::unsupported(e),
+                        }
+                    }
                     "len" if m.args.is_empty() && self.array_name(&m.receiver).is_some() => {
                         let (a, _) = self.array_name(&m.receiver).unwrap();
                         (format!("(ELen {})", q(&a)), Some(Ity::Usz))
                     }
                     // self.buffer.len(): a byte-level helper of HashPacket (internal.rs), given to the interpreter as an external
-                    "len" if toks(&m.receiver) == "self . buffer" && m.args.is_empty() => {
-                        let t = self.fresh("c");
-                        self.pre.push(format!("SCall (Some {}) \"buffer.len\" []", q(&t)));
-                        self.vars.insert(t.clone(), Ty::Int(Ity::Usz));
-                        (format!("(EVar {})", q(&t)), Some(Ity::Usz))
+                    _ if self.sub.as_ref().map(|sb| toks(&m.receiver) == format!("self . {}", sb.field)).unwrap_or(false) => {
+                        match self.sub_call(m) {
+                            Some((txt, Ty::Int(i))) => {
+                                let t = self.fresh("c");
+                                self.pre.push(format!("SCallSub (Some {}) {}", q(&t), txt));
+                                self.vars.insert(t.clone(), Ty::Int(i));
+                                (format!("(EVar {})", q(&t)), Some(i))
+                            }
+                            Some((txt, Ty::Idx)) => {
+                                let t = self.fresh("c");
+                                self.pre.push(format!("SCallSub (Some {}) {}", q(&t), txt));
+                                self.vars.insert(t.clone(), Ty::Int(Ity::Usz));
+                                (format!("(EVar {})", q(&t)), Some(Ity::Usz))
+                            }
+                            _ => Self::unsupported(e),
+                        }
                     }
                     _ => Self::unsupported(e),
                 }
@@ -346,6 +452,15 @@ impl<'a> Cx<'a> {
                 }
             }
             syn::Expr::Call(c) => {
+                // core::mem::size_of::<uN>()
+                if c.args.is_empty() {
+                    let t = toks(&c.func).replace(' ', "");
+                    for (name, n) in [("u8", 1), ("u16", 2), ("u32", 4), ("u64", 8)] {
+                        if t == format!("core::mem::size_of::<{}>", name) {
+                            return (format!("(ELit {})", n), Some(Ity::Usz));
+                        }
+                    }
+                }
                 // u64::from(x)
                 if let syn::Expr::Path(p) = &*c.func {
                     let segs: Vec<String> = p.path.segments.iter().map(|s| s.ident.to_string()).collect();
@@ -405,6 +520,15 @@ impl<'a> Cx<'a> {
                     Some(Ty::Int(i)) => Some((format!("(PVar {})", q(&n)), format!("(EVar {})", q(&n)), Some(*i))),
                     _ => None,
                 }
+            }
+            syn::Expr::Field(f) if toks(&f.base) == "self" => {
+                if let syn::Member::Named(m) = &f.member {
+                    if let Some(t) = self.sfields.get(&m.to_string()) {
+                        let n = format!("self.{}", m);
+                        return Some((format!("(PVar {})", q(&n)), format!("(EVar {})", q(&n)), Some(*t)));
+                    }
+                }
+                None
             }
             syn::Expr::Unary(u) => {
                 if let (syn::UnOp::Deref(_), syn::Expr::Path(p)) = (&u.op, &*u.expr) {
@@ -467,6 +591,13 @@ impl<'a> Cx<'a> {
 
     /// an array-valued call used as an argument or initialiser: hoisted into a temporary
     fn array_call(&mut self, e: &syn::Expr) -> Option<(String, Ity)> {
+        // &a[lo..hi] as an argument: a slice value
+        if let Some((a, lo, hi, t)) = self.range_slice(e) {
+            let tmp = self.fresh("a");
+            self.pre.push(format!("SLetSlice {} {} {} {}", q(&tmp), q(&a), lo, hi));
+            self.vars.insert(tmp.clone(), Ty::Arr(t));
+            return Some((tmp, t));
+        }
         let e = match e {
             syn::Expr::Reference(r) => &*r.expr,
             syn::Expr::Paren(p) => &*p.expr,
@@ -485,13 +616,38 @@ impl<'a> Cx<'a> {
                 }
                 None
             }
-            // self.buffer.as_slice(): byte-level helper of HashPacket, external
-            syn::Expr::MethodCall(m) if toks(&m.receiver) == "self . buffer" && m.method == "as_slice" && m.args.is_empty() => {
-                let t = self.fresh("a");
-                self.pre.push(format!("SCall (Some {}) \"buffer.as_slice\" []", q(&t)));
-                self.vars.insert(t.clone(), Ty::Arr(Ity::U8));
-                Some((t, Ity::U8))
+            syn::Expr::MethodCall(m) if m.method == "to_le_bytes" && m.args.is_empty() => {
+                let (x, t) = self.expr(&m.receiver, None);
+                let t = t?;
+                let tmp = self.fresh("a");
+                self.pre.push(format!("SLetToLe {} {} {}", q(&tmp), x, t.bits() / 8));
+                self.vars.insert(tmp.clone(), Ty::Arr(Ity::U8));
+                self.lens.insert(tmp.clone(), (t.bits() / 8) as usize);
+                Some((tmp, Ity::U8))
             }
+            syn::Expr::MethodCall(m) if m.method == "remainder" && m.args.is_empty() => {
+                // chunks.remainder()
+                if let syn::Expr::Path(p) = &*m.receiver {
+                    if p.path.segments.len() == 1 {
+                        if let Some((d, n)) = self.chunks.get(&p.path.segments[0].ident.to_string()).cloned() {
+                            let t = self.fresh("a");
+                            self.pre.push(format!("SLetChunksRem {} {} {}", q(&t), q(&d), n));
+                            self.vars.insert(t.clone(), Ty::Arr(Ity::U8));
+                            return Some((t, Ity::U8));
+                        }
+                    }
+                }
+                None
+            }
+            syn::Expr::MethodCall(m) => match self.sub_call(m) {
+                Some((txt, Ty::Arr(i))) => {
+                    let t = self.fresh("a");
+                    self.pre.push(format!("SCallSub (Some {}) {}", q(&t), txt));
+                    self.vars.insert(t.clone(), Ty::Arr(i));
+                    Some((t, i))
+                }
+                _ => None,
+            },
             _ => None,
         }
     }
@@ -526,9 +682,31 @@ impl<'a> Cx<'a> {
     }
 
     fn cond(&mut self, e: &syn::Expr) -> Option<String> {
+        match e {
+            syn::Expr::Paren(p) => return self.cond(&p.expr),
+            syn::Expr::Unary(u) if matches!(u.op, syn::UnOp::Not(_)) => {
+                let c = self.cond(&u.expr)?;
+                return Some(format!("(CNot {})", c));
+            }
+            syn::Expr::MethodCall(m) if self.sub.as_ref().map(|sb| toks(&m.receiver) == format!("self . {}", sb.field)).unwrap_or(false) => {
+                if let Some((txt, Ty::Bool)) = self.sub_call(m) {
+                    let t = self.fresh("b");
+                    self.pre.push(format!("SCallSub (Some {}) {}", q(&t), txt));
+                    self.vars.insert(t.clone(), Ty::Int(Ity::Usz));
+                    return Some(format!("(CNe (EVar {}) (ELit 0))", q(&t)));
+                }
+                return None;
+            }
+            syn::Expr::MethodCall(m) if m.method == "is_empty" && m.args.is_empty() => {
+                let (a, _) = self.array_name(&m.receiver)?;
+                return Some(format!("(CIsEmpty {})", q(&a)));
+            }
+            _ => {}
+        }
         if let syn::Expr::Binary(b) = e {
             use syn::BinOp::*;
             let name = match &b.op {
+                Le(_) => "CLe",
                 Ne(_) => "CNe",
                 Eq(_) => "CEq",
                 Gt(_) => "CGt",
@@ -570,7 +748,10 @@ impl<'a> Cx<'a> {
                         let (src, slo) = match self.range_slice(&z.args[0]) {
                             Some((a, lo, hi, _)) if hi == "None" => (a, lo),
                             Some(_) => return None,
-                            None => (self.array_name(&z.args[0])?.0, "None".to_string()),
+                            None => match self.array_name(&z.args[0]) {
+                                Some((a, _)) => (a, "None".to_string()),
+                                None => (self.array_call(&z.args[0])?.0, "None".to_string()),
+                            },
                         };
                         return Some((dst, dlo, src, slo));
                     }
@@ -578,6 +759,39 @@ impl<'a> Cx<'a> {
             }
         }
         None
+    }
+
+    /// self.<sub>.m(args)  ->  ("<sub>.m" [args] fmap, return type)
+    fn sub_call(&mut self, m: &syn::ExprMethodCall) -> Option<(String, Ty)> {
+        let sub = self.sub.as_ref()?;
+        if toks(&m.receiver) != format!("self . {}", sub.field) {
+            return None;
+        }
+        let sig = sub.sigs.get(&m.method.to_string())?.clone();
+        if sig.params.len() != m.args.len() {
+            return None;
+        }
+        let mut out = Vec::new();
+        for ((_, pt), a) in sig.params.iter().zip(m.args.iter()) {
+            match pt {
+                Ty::Int(i) => {
+                    let (x, _) = self.expr(a, Some(*i));
+                    out.push(format!("AVal {}", x));
+                }
+                Ty::Arr(_) => {
+                    if let Some((n, _)) = self.array_name(a) {
+                        out.push(format!("AArr {}", q(&n)));
+                    } else if let Some((n, _)) = self.array_call(a) {
+                        out.push(format!("AArr {}", q(&n)));
+                    } else {
+                        return None;
+                    }
+                }
+                _ => return None,
+            }
+        }
+        let fmap: Vec<String> = sub.fields.iter().map(|f| format!("({}, {})", q(&format!("self.{}", f)), q(&format!("self.{}.{}", sub.field, f)))).collect();
+        Some((format!("{} [{}] [{}]", q(&format!("{}.{}", sub.field, m.method)), out.join("; "), fmap.join("; ")), sig.ret.clone()))
     }
 
     fn flush(&mut self, out: &mut Vec<String>, s: String) {
@@ -607,6 +821,7 @@ impl<'a> Cx<'a> {
                     if i.else_branch.is_none() {
                         if let Some(syn::Stmt::Expr(syn::Expr::Return(r), Some(_))) = i.then_branch.stmts.last() {
                             if let (Some(c), Some(rv)) = (self.cond(&i.cond), &r.expr) {
+                                out.append(&mut self.pre);
                                 let mut th = Vec::new();
                                 let m = i.then_branch.stmts.len();
                                 if self.stmts(&i.then_branch.stmts[..m - 1], &mut th).is_some() {
@@ -627,6 +842,50 @@ impl<'a> Cx<'a> {
                 syn::Stmt::Macro(m) if m.mac.path.is_ident("debug_assert") && m.mac.tokens.to_string().trim_start().starts_with("false") => {
                     out.push("SDebugAssertFalse".into())
                 }
+                syn::Stmt::Macro(m) if m.mac.path.is_ident("debug_assert") => {
+                    let args: Result<syn::punctuated::Punctuated<syn::Expr, syn::token::Comma>, _> =
+                        m.mac.parse_body_with(syn::punctuated::Punctuated::parse_terminated);
+                    match args.ok().and_then(|a| a.first().cloned()).and_then(|c| self.cond(&c)) {
+                        Some(c) => {
+                            out.append(&mut self.pre);
+                            out.push(format!("SDebugAssert {}", c));
+                        }
+                        None => out.push(format!("SUnsupported {}", q(&toks(m)))),
+                    }
+                }
+                // Option-valued tails:  None  /  Some(x)  /  if c { ..; None } else { ..; Some(x) }
+                syn::Stmt::Expr(e, None) if self.ret_opt && k + 1 == n => match e {
+                    syn::Expr::Path(p) if p.path.is_ident("None") => out.push("SSetOpt \"%ret\" None".into()),
+                    syn::Expr::Call(c) if toks(&c.func) == "Some" && c.args.len() == 1 => match self.array_name(&c.args[0]) {
+                        Some((a, _)) => out.push(format!("SSetOpt \"%ret\" (Some {})", q(&a))),
+                        None => out.push(format!("SUnsupported {}", q(&toks(e)))),
+                    },
+                    syn::Expr::If(i) => {
+                        let c = self.cond(&i.cond);
+                        out.append(&mut self.pre);
+                        let mut th = Vec::new();
+                        let mut el = Vec::new();
+                        self.stmts(&i.then_branch.stmts, &mut th);
+                        let ok = match &i.else_branch {
+                            Some((_, eb)) => match &**eb {
+                                syn::Expr::Block(bl) => {
+                                    self.stmts(&bl.block.stmts, &mut el);
+                                    true
+                                }
+                                _ => false,
+                            },
+                            None => false,
+                        };
+                        match (c, ok) {
+                            (Some(c), true) => {
+                                out.append(&mut self.pre);
+                                out.push(format!("SIf {} [{}] [{}]", c, th.join("; "), el.join("; ")));
+                            }
+                            _ => out.push(format!("SUnsupported {}", q(&toks(e)))),
+                        }
+                    }
+                    _ => out.push(format!("SUnsupported {}", q(&toks(e)))),
+                },
                 syn::Stmt::Expr(e, None) if self.ret_arr && k + 1 == n && !matches!(e, syn::Expr::ForLoop(_) | syn::Expr::If(_)) => {
                     self.set_ret(e, out);
                 }
@@ -650,6 +909,11 @@ impl<'a> Cx<'a> {
     }
 
     fn ret(&mut self, e: &syn::Expr, out: &mut Vec<String>) -> String {
+        if let syn::Expr::Path(p) = e {
+            if p.path.segments.len() == 1 && Some(p.path.segments[0].ident.to_string()) == self.self_alias {
+                return "RNone".into(); // the value under construction is self
+            }
+        }
         match e {
             syn::Expr::Array(a) => {
                 let es: Vec<String> = a.elems.iter().map(|x| self.expr(x, None).0).collect();
@@ -684,7 +948,9 @@ impl<'a> Cx<'a> {
                             },
                         }
                     } else if name == "buffer" && toks(&f.expr) == "HashPacket :: default ()" {
-                        // the pending buffer starts empty: part of the byte-level model (Packet.v), not of the kernel
+                        // #[derive(Default)] on HashPacket { buf: [u8; 32], buf_index: usize }: zeroed array, index 0
+                        out.push("SLetRepeat \"self.buffer.buf\" (ELit 0) 32".into());
+                        out.push("SSet (PVar \"self.buffer.buf_index\") (ELit 0)".into());
                     } else {
                         out.push(format!("SUnsupported {}", q(&toks(f))));
                     }
@@ -697,12 +963,40 @@ impl<'a> Cx<'a> {
             syn::Expr::Path(p) if p.path.segments.len() == 1 && matches!(self.vars.get(&p.path.segments[0].ident.to_string()), Some(Ty::Arr(_))) => {
                 // returning a local array: element-wise
                 let n = p.path.segments[0].ident.to_string();
+                if Some(&n) == self.self_alias.as_ref() {
+                    return "RNone".into();
+                }
                 match self.lens.get(&n) {
+                    Some(len) if *len > 8 => format!("RVarArr {}", q(&n)),
                     Some(len) => format!("RArr [{}]", (0..*len).map(|i| format!("(EIdx {} (IConst {}))", q(&n), i)).collect::<Vec<_>>().join("; ")),
                     None => format!("RVal (EUnsupported {})", q(&toks(e))),
                 }
             }
+            // a.get(..n).unwrap_or(&a)
+            syn::Expr::MethodCall(uo) if uo.method == "unwrap_or" && uo.args.len() == 1 => {
+                if let syn::Expr::MethodCall(g) = &*uo.receiver {
+                    if g.method == "get" && g.args.len() == 1 {
+                        if let (Some((a, _)), Some((d, _)), syn::Expr::Range(r)) = (self.array_name(&g.receiver), self.array_name(&uo.args[0]), &g.args[0]) {
+                            if let (None, Some(end), syn::RangeLimits::HalfOpen(_), true) = (&r.start, &r.end, &r.limits, a == d) {
+                                let (n, _) = self.expr(end, Some(Ity::Usz));
+                                out.append(&mut self.pre);
+                                return format!("RPrefixOr {} {}", q(&a), n);
+                            }
+                        }
+                    }
+                }
+                format!("RVal (EUnsupported {})", q(&toks(e)))
+            }
             _ => {
+                if let Some((a, _)) = self.array_name(e) {
+                    return format!("RVarArr {}", q(&a));
+                }
+                if matches!(e, syn::Expr::Binary(_)) {
+                    if let Some(c) = self.cond(e) {
+                        out.append(&mut self.pre);
+                        return format!("RCond {}", c);
+                    }
+                }
                 let (x, _) = self.expr(e, None);
                 out.append(&mut self.pre);
                 format!("RVal {}", x)
@@ -727,6 +1021,19 @@ impl<'a> Cx<'a> {
             syn::Pat::Ident(id) if id.by_ref.is_none() && id.subpat.is_none() => {
                 let name = id.ident.to_string();
                 let want = ann.and_then(|t| ty_of(t, false));
+                // let mut chunks = X.chunks_exact(n);  — consumed by `for c in chunks.by_ref()` and `chunks.remainder()`
+                if let syn::Expr::MethodCall(ce) = init {
+                    if ce.method == "chunks_exact" && ce.args.len() == 1 {
+                        let n = Self::lit(&ce.args[0]).map(|x| x.0).or_else(|| match &ce.args[0] {
+                            syn::Expr::Path(p) if p.path.segments.len() == 1 => self.consts.get(&p.path.segments[0].ident.to_string()).copied(),
+                            _ => None,
+                        });
+                        if let (Some((d, Ity::U8)), Some(n)) = (self.array_name(&ce.receiver), n) {
+                            self.chunks.insert(name.clone(), (d, n));
+                            return;
+                        }
+                    }
+                }
                 // [v; n]
                 if let syn::Expr::Repeat(r) = init {
                     if let Some((n, _)) = Self::lit(&r.len) {
@@ -741,6 +1048,46 @@ impl<'a> Cx<'a> {
                             let s = format!("SLetRepeat {} {} {}", q(&name), v, n);
                             self.flush(out, s);
                             return;
+                        }
+                    }
+                }
+                // let x = &mut a[lo..hi];   — a mutable view
+                if let syn::Expr::Reference(r) = init {
+                    if r.mutability.is_some() {
+                        if let Some((a, lo, hi, t)) = self.range_slice(&r.expr) {
+                            self.vars.insert(name.clone(), Ty::Arr(t));
+                            self.views.insert(name.clone());
+                            let s = format!("SLetViewRange {} {} {} {}", q(&name), q(&a), lo, hi);
+                            self.flush(out, s);
+                            return;
+                        }
+                    }
+                }
+                // let mut h = Self { field: .., .. };   — the value under construction: its fields are the fields of self
+                if let syn::Expr::Struct(st) = init {
+                    if toks(&st.path) == self.self_ty || toks(&st.path) == "Self" {
+                        let r = self.ret(init, out);
+                        if r == "RNone" {
+                            self.self_alias = Some(name.clone());
+                            return;
+                        }
+                    }
+                }
+                // let x = a.get_mut(from..).unwrap_or_default();   — a mutable view of the tail of a
+                if let syn::Expr::MethodCall(ud) = init {
+                    if ud.method == "unwrap_or_default" && ud.args.is_empty() {
+                        if let syn::Expr::MethodCall(gm) = &*ud.receiver {
+                            if gm.method == "get_mut" && gm.args.len() == 1 {
+                                if let (Some((a, t)), syn::Expr::Range(r)) = (self.array_name(&gm.receiver), &gm.args[0]) {
+                                    if let (Some(from), None, syn::RangeLimits::HalfOpen(_)) = (&r.start, &r.end, &r.limits) {
+                                        let (fx, _) = self.expr(from, Some(Ity::Usz));
+                                        self.vars.insert(name.clone(), Ty::Arr(t));
+                                        let s = format!("SLetViewFrom {} {} {}", q(&name), q(&a), fx);
+                                        self.flush(out, s);
+                                        return;
+                                    }
+                                }
+                            }
                         }
                     }
                 }
@@ -821,6 +1168,34 @@ impl<'a> Cx<'a> {
                 }
             }
             syn::Pat::Tuple(tp) => {
+                // let (h, t) = a.split_at(mid);   /   let (h, t) = v.split_at_mut(mid) with v a view
+                if let syn::Expr::MethodCall(m) = init {
+                    if (m.method == "split_at" || m.method == "split_at_mut") && m.args.len() == 1 && tp.elems.len() == 2 {
+                        let name_of = |p: &syn::Pat| match p {
+                            syn::Pat::Ident(i) => Some(i.ident.to_string()),
+                            syn::Pat::Wild(_) => Some("_".to_string()),
+                            _ => None,
+                        };
+                        if let (Some((a, t)), Some(h), Some(tl)) = (self.array_name(&m.receiver), name_of(&tp.elems[0]), name_of(&tp.elems[1])) {
+                            let (mx, _) = self.expr(&m.args[0], Some(Ity::Usz));
+                            self.vars.insert(h.clone(), Ty::Arr(t));
+                            self.vars.insert(tl.clone(), Ty::Arr(t));
+                            let is_view = self.views.contains(&a);
+                            if is_view != (m.method == "split_at_mut") {
+                                self.pre.clear();
+                                out.push(format!("SUnsupported {}", q(&toks(l))));
+                                return;
+                            }
+                            if is_view {
+                                self.views.insert(h.clone());
+                                self.views.insert(tl.clone());
+                            }
+                            let s = format!("{} {} {} {} {}", if is_view { "SLetSplitView" } else { "SLetSplit" }, q(&h), q(&tl), q(&a), mx);
+                            self.flush(out, s);
+                            return;
+                        }
+                    }
+                }
                 if let syn::Expr::Call(c) = init {
                     if let Some(f) = self.assoc_call(c) {
                         let args: Vec<&syn::Expr> = c.args.iter().collect();
@@ -852,6 +1227,14 @@ impl<'a> Cx<'a> {
 
     fn stmt_expr(&mut self, e: &syn::Expr, out: &mut Vec<String>) {
         match e {
+            syn::Expr::Assign(a) if self.array_name(&a.left).is_some() && self.array_name(&a.right).is_some() && !matches!(&*a.left, syn::Expr::Index(_)) => {
+                let (l, _) = self.array_name(&a.left).unwrap();
+                let (r, _) = self.array_name(&a.right).unwrap();
+                if self.views.contains(&l) == self.views.contains(&r) {
+                    out.push(format!("SCopyArr {} {}", q(&l), q(&r)));
+                    return;
+                }
+            }
             syn::Expr::Assign(a) => {
                 if let Some((pl, _, t)) = self.place(&a.left) {
                     let (x, _) = self.expr(&a.right, t);
@@ -862,6 +1245,14 @@ impl<'a> Cx<'a> {
             }
             syn::Expr::Binary(b) => {
                 use syn::BinOp::*;
+                if let AddAssign(_) = &b.op {
+                    if let Some((pl, pe, Some(t))) = self.place(&b.left) {
+                        let (x, _) = self.expr(&b.right, Some(t));
+                        let s = format!("SSet {} (EAdd {} {} {})", pl, t.coq(), pe, x);
+                        self.flush(out, s);
+                        return;
+                    }
+                }
                 let op = match &b.op {
                     BitXorAssign(_) => Some("EXor"),
                     BitOrAssign(_) => Some("EOr"),
@@ -896,14 +1287,47 @@ impl<'a> Cx<'a> {
             syn::Expr::MethodCall(m)
                 if (m.method == "clone_from_slice" || m.method == "copy_from_slice") && m.args.len() == 1 =>
             {
-                if let (Some((d, dlo, dhi, _)), Some((sx, slo, shi, _))) = (self.range_slice(&m.receiver), self.range_slice(&m.args[0])) {
+                let whole = |cx: &mut Self, e: &syn::Expr| {
+                    cx.range_slice(e)
+                        .or_else(|| cx.array_name(e).map(|(a, t)| (a, "None".to_string(), "None".to_string(), t)))
+                        .or_else(|| cx.array_call(e).map(|(a, t)| (a, "None".to_string(), "None".to_string(), t)))
+                };
+                if let (Some((d, dlo, dhi, _)), Some((sx, slo, shi, _))) = (whole(self, &m.receiver), whole(self, &m.args[0])) {
                     let s = format!("SCopyRange {} {} {} {} {} {}", q(&d), dlo, dhi, q(&sx), slo, shi);
                     self.flush(out, s);
                     return;
                 }
             }
+            syn::Expr::MethodCall(m) if self.sub.as_ref().map(|sb| toks(&m.receiver) == format!("self . {}", sb.field)).unwrap_or(false) => {
+                if let Some((txt, _)) = self.sub_call(m) {
+                    let s = format!("SCallSub None {}", txt);
+                    self.flush(out, s);
+                    return;
+                }
+            }
+            // if let Some(x) = self.<sub>.m(args) { body }
+            syn::Expr::If(i) if matches!(&*i.cond, syn::Expr::Let(_)) && i.else_branch.is_none() => {
+                if let syn::Expr::Let(l) = &*i.cond {
+                    if let (syn::Pat::TupleStruct(ts), syn::Expr::MethodCall(m)) = (&*l.pat, &*l.expr) {
+                        if toks(&ts.path) == "Some" && ts.elems.len() == 1 {
+                            if let (syn::Pat::Ident(x), Some((txt, Ty::OptSlice))) = (&ts.elems[0], self.sub_call(m)) {
+                                let o = self.fresh("o");
+                                let xs = x.ident.to_string();
+                                self.vars.insert(xs.clone(), Ty::Arr(Ity::U8));
+                                let mut body = Vec::new();
+                                let call = format!("SCallSub (Some {}) {}", q(&o), txt);
+                                self.flush(out, call);
+                                if self.block(&i.then_branch, &mut body).is_none() {
+                                    out.push(format!("SIfSome {} {} [{}]", q(&o), q(&xs), body.join("; ")));
+                                    return;
+                                }
+                            }
+                        }
+                    }
+                }
+            }
             syn::Expr::MethodCall(m) => {
-                if toks(&m.receiver) == "self" {
+                if toks(&m.receiver) == "self" || Some(toks(&m.receiver)) == self.self_alias {
                     let args: Vec<&syn::Expr> = m.args.iter().collect();
                     if let Some((txt, _)) = self.call(&m.method.to_string(), &args) {
                         let s = format!("SCall None {}", txt);
@@ -912,8 +1336,9 @@ impl<'a> Cx<'a> {
                     }
                 }
             }
-            syn::Expr::If(i) if toks(&i.cond) != "! self . buffer . is_empty ()" => {
+            syn::Expr::If(i) if self.sub.is_some() || toks(&i.cond) != "! self . buffer . is_empty ()" => {
                 if let Some(c) = self.cond(&i.cond) {
+                    out.append(&mut self.pre); // statements hoisted out of the condition run before the if
                     let mut th = Vec::new();
                     let mut el = Vec::new();
                     let mut ok = self.block(&i.then_branch, &mut th).is_none();
@@ -959,6 +1384,74 @@ impl<'a> Cx<'a> {
                         return None;
                     }
                     return Some(format!("SFor {} {} {} [{}]", q(&i), lo, hi, body.join("; ")));
+                }
+            }
+        }
+        // for a in [&x, &y, ..] { body }  — an array literal of references to arrays: the body once per element, in order
+        if let (syn::Pat::Ident(v), syn::Expr::Array(arr)) = (&*f.pat, &*f.expr) {
+            let mut names = Vec::new();
+            for el in &arr.elems {
+                match el {
+                    syn::Expr::Reference(r) => match self.array_name(&r.expr) {
+                        Some((n, t)) => names.push((n, t)),
+                        None => return None,
+                    },
+                    _ => return None,
+                }
+            }
+            let var = v.ident.to_string();
+            let mut all = Vec::new();
+            for (n, t) in names {
+                // the loop variable is another name for the array
+                let len = if let Some(fl) = n.strip_prefix("self.") { self.fields.get(fl).map(|x| x.1) } else { self.lens.get(&n).copied() }?;
+                self.vars.insert(var.clone(), Ty::Arr(t));
+                self.lens.insert(var.clone(), len);
+                self.arr_alias.insert(var.clone(), n.clone());
+                let mut body = Vec::new();
+                let r = self.block(&f.body, &mut body);
+                self.arr_alias.remove(&var);
+                if r.is_some() {
+                    return None;
+                }
+                all.extend(body);
+            }
+            return Some(all.join("; "));
+        }
+        // for &x in arr { body }  — x is a copy of each element
+        if let syn::Pat::Reference(pr) = &*f.pat {
+            if let syn::Pat::Ident(x) = &*pr.pat {
+                if let Some((arr, _)) = self.array_name(&f.expr) {
+                    let len = if let Some(fl) = arr.strip_prefix("self.") { self.fields.get(fl).map(|v| v.1) } else { self.lens.get(&arr).copied() }?;
+                    let xs = x.ident.to_string();
+                    let iv = format!("{}#i", xs);
+                    self.vars.insert(iv.clone(), Ty::Idx);
+                    self.valias.insert(xs.clone(), (arr.clone(), iv.clone()));
+                    let mut body = Vec::new();
+                    let r = self.block(&f.body, &mut body);
+                    self.valias.remove(&xs);
+                    if r.is_some() {
+                        return None;
+                    }
+                    return Some(format!("SFor {} 0 {} [{}]", q(&iv), len, body.join("; ")));
+                }
+            }
+        }
+        // for c in chunks.by_ref() { body }
+        if let (syn::Pat::Ident(c), syn::Expr::MethodCall(br)) = (&*f.pat, &*f.expr) {
+            if br.method == "by_ref" && br.args.is_empty() {
+                if let syn::Expr::Path(p) = &*br.receiver {
+                    if p.path.segments.len() == 1 {
+                        if let Some((d, n)) = self.chunks.get(&p.path.segments[0].ident.to_string()).cloned() {
+                            let cs = c.ident.to_string();
+                            self.vars.insert(cs.clone(), Ty::Arr(Ity::U8));
+                            self.lens.insert(cs.clone(), n as usize);
+                            let mut body = Vec::new();
+                            if self.block(&f.body, &mut body).is_some() {
+                                return None;
+                            }
+                            return Some(format!("SForAllChunks {} {} {} [{}]", q(&cs), q(&d), n, body.join("; ")));
+                        }
+                    }
                 }
             }
         }
@@ -1044,14 +1537,50 @@ impl<'a> Cx<'a> {
 }
 
 /// Translate the listed functions of `impl <self_ty>` in `file`; emits a Coq file defining `src_fns`.
-pub fn translate(file: &syn::File, rel: &str, self_ty: &str, wanted: &[&str], externals: &[&str]) -> String {
+pub fn translate(file: &syn::File, rel: &str, self_ty: &str, wanted: &[&str], externals: &[&str], consts_in: &[(&str, u128)], listname: &str, sub: Option<SubObj>) -> String {
+    let mut consts: HashMap<String, u128> = consts_in.iter().map(|(k, v)| (k.to_string(), *v)).collect();
+    for it in &file.items {
+        if let syn::Item::Const(c) = it {
+            if let syn::Expr::Lit(l) = &*c.expr {
+                if let syn::Lit::Int(i) = &l.lit {
+                    if let Ok(v) = i.base10_parse::<u128>() {
+                        consts.insert(c.ident.to_string(), v);
+                    }
+                }
+            }
+        }
+    }
+    let mut sfields: HashMap<String, Ity> = HashMap::new();
+    for it in &file.items {
+        if let syn::Item::Struct(st) = it {
+            if st.ident == self_ty {
+                for f in &st.fields {
+                    if let (Some(id), Some(t)) = (&f.ident, ty_of(&f.ty, false)) {
+                        match t {
+                            Ty::Int(i) => {
+                                sfields.insert(id.to_string(), i);
+                            }
+                            Ty::Idx => {
+                                sfields.insert(id.to_string(), Ity::Usz);
+                            }
+                            _ => {}
+                        }
+                    }
+                }
+            }
+        }
+    }
     // fields of the struct that are fixed arrays of scalars
     let mut fields: HashMap<String, (Ity, usize)> = HashMap::new();
     for it in &file.items {
         if let syn::Item::Struct(s) = it {
             if s.ident == self_ty {
                 for f in &s.fields {
-                    if let (Some(id), Some(Ty::Arr(i)), Some(n)) = (&f.ident, ty_of(&f.ty, false), arr_len(&f.ty)) {
+                    let n = arr_len(&f.ty).or_else(|| match &f.ty {
+                        syn::Type::Array(a) => consts.get(&toks(&a.len)).map(|v| *v as usize),
+                        _ => None,
+                    });
+                    if let (Some(id), Some(Ty::Arr(i)), Some(n)) = (&f.ident, ty_of(&f.ty, false), n) {
                         fields.insert(id.to_string(), (i, n));
                     }
                 }
@@ -1063,11 +1592,21 @@ pub fn translate(file: &syn::File, rel: &str, self_ty: &str, wanted: &[&str], ex
     let mut bodies: Vec<&syn::ImplItemFn> = Vec::new();
     for it in &file.items {
         if let syn::Item::Impl(im) = it {
-            if im.trait_.is_some() || toks(&im.self_ty) != self_ty {
+            if toks(&im.self_ty) != self_ty {
                 continue;
+            }
+            // inherent functions; of the trait impls only HighwayHash::checkpoint (the other trait methods forward to inherent ones)
+            let from_trait = im.trait_.as_ref().map(|(_, p, _)| p.segments.last().map(|s| s.ident.to_string()).unwrap_or_default());
+            if let Some(t) = &from_trait {
+                if t != "HighwayHash" {
+                    continue;
+                }
             }
             for ii in &im.items {
                 if let syn::ImplItem::Fn(f) = ii {
+                    if from_trait.is_some() && f.sig.ident != "checkpoint" {
+                        continue;
+                    }
                     let mut params = Vec::new();
                     let mut ok = true;
                     for a in &f.sig.inputs {
@@ -1111,13 +1650,13 @@ pub fn translate(file: &syn::File, rel: &str, self_ty: &str, wanted: &[&str], ex
         let f = match bodies.iter().find(|f| f.sig.ident == w) {
             Some(f) => f,
             None => {
-                let _ = writeln!(out, "Definition src_{} : fndef := {{| f_params := []; f_body := [SUnsupported \"function not found\"]; f_ret := RNone |}}.\n", w);
+                let _ = writeln!(out, "Definition {}_{} : fndef := {{| f_params := []; f_body := [SUnsupported \"function not found\"]; f_ret := RNone |}}.\n", listname, w);
                 names.push(w.to_string());
                 continue;
             }
         };
         let sig = sigs.get(*w);
-        let mut cx = Cx { self_ty, sigs: &sigs, fields: &fields, vars: HashMap::new(), lens: HashMap::new(), alias: HashMap::new(), tmp: 0, pre: Vec::new(), zips: HashMap::new(), ret_arr: false };
+        let mut cx = Cx { self_ty, sigs: &sigs, fields: &fields, sfields: &sfields, consts: &consts, ret_opt: false, valias: HashMap::new(), arr_alias: HashMap::new(), self_alias: None, sub: &sub, chunks: HashMap::new(), vars: HashMap::new(), lens: HashMap::new(), alias: HashMap::new(), tmp: 0, pre: Vec::new(), views: std::collections::HashSet::new(), zips: HashMap::new(), ret_arr: false };
         let mut params = Vec::new();
         let mut body: Vec<String> = Vec::new();
         match sig {
@@ -1145,18 +1684,22 @@ pub fn translate(file: &syn::File, rel: &str, self_ty: &str, wanted: &[&str], ex
         // a function that returns an array and contains `return`: results go through the variable %ret
         let has_return = toks(&f.block).contains("return ");
         cx.ret_arr = has_return && matches!(sig.map(|s| &s.ret), Some(Ty::Arr(_)));
-        let ret = if cx.ret_arr {
+        cx.ret_opt = matches!(sig.map(|s| &s.ret), Some(Ty::OptSlice));
+        let ret = if cx.ret_opt {
+            cx.block(&f.block, &mut body);
+            "RVar \"%ret\"".to_string()
+        } else if cx.ret_arr {
             cx.block(&f.block, &mut body);
             "RVarArr \"%ret\"".to_string()
         } else {
             cx.block(&f.block, &mut body).unwrap_or_else(|| "RNone".into())
         };
         let _ = writeln!(out, "(* {} :: {} *)", rel, toks(&f.sig));
-        let _ = writeln!(out, "Definition src_{} : fndef :=\n  {{| f_params := [{}];\n     f_body := [\n       {}];\n     f_ret := {} |}}.\n", w, params.join("; "), body.join(";\n       "), ret);
+        let _ = writeln!(out, "Definition {}_{} : fndef :=\n  {{| f_params := [{}];\n     f_body := [\n       {}];\n     f_ret := {} |}}.\n", listname, w, params.join("; "), body.join(";\n       "), ret);
         names.push(w.to_string());
     }
-    let _ = writeln!(out, "Definition src_fns : list (string * fndef) :=\n  [{}].\n", names.iter().map(|n| format!("({}, src_{})", q(n), n)).collect::<Vec<_>>().join(";\n   "));
+    let _ = writeln!(out, "Definition {}_fns : list (string * fndef) :=\n  [{}].\n", listname, names.iter().map(|n| format!("({}, {}_{})", q(n), listname, n)).collect::<Vec<_>>().join(";\n   "));
     // the functions the translated ones call but that are not translated (must be exactly the declared externals)
-    let _ = writeln!(out, "Definition src_externals : list string := [{}].", externals.iter().map(|e| q(e)).collect::<Vec<_>>().join("; "));
+    let _ = writeln!(out, "Definition {}_externals : list string := [{}].", listname, externals.iter().map(|e| q(e)).collect::<Vec<_>>().join("; "));
     out
 }
